@@ -194,7 +194,7 @@ end Shapes
 abbrev HexCell := Int × Int × Int
 
 /-- `hex_neighbor(hex, i)` -/
-def hexNeighbor (h : HexCell) (i : Nat) : HexCell := Gen.hexAdd h (Gen.hexDirections.getD i (0, 0, 0))
+def hexNeighbor (h : HexCell) (i : Nat) : HexCell := Gen.hexNeighbor h i
 
 /-- inner loop of `hex_ring`: `for j in range(n): results.append(hex); hex = hex_neighbor(hex, i)` -/
 def walkSide (i : Nat) : Nat → List HexCell → HexCell → List HexCell × HexCell
@@ -206,8 +206,9 @@ def walkSides (k : Nat) : Nat → List HexCell × HexCell
   | 0 => ([], Gen.hexRingStart k)
   | m + 1 => let s := walkSides k m; walkSide m k s.1 s.2
 
-/-- `segmented.hex_ring(k)` -/
-def hexRing (k : Nat) : List HexCell := (walkSides k 6).1
+/-- `segmented.hex_ring(k)`: the REGENERATED loop translation `Gen.hexRing` (folds over the state `(results, hex)`); `walkSide` / `walkSides` above are
+the recursive form the lemmas use, proved equal to it (`hexRing_eq_walk`) -/
+def hexRing (k : Nat) : List HexCell := Gen.hexRing k
 
 /-- `hex_to_rc(hex, radius, rotate)` = `(-y, x)` of `hex_to_xy`; `sqrt3 = √3`, `sqrt3h = √3/2`, `threeHalf = 3/2` -/
 def hexToRC [Add K] [Mul K] [Neg K] [IntCast K] (sqrt3 sqrt3h threeHalf : K) (h : HexCell) (radius : K) (rotate : Bool) : K × K :=
